@@ -120,10 +120,11 @@ class TraceVerdict:
     rejects: list = field(default_factory=list)   # (id, [clauses])
     wall_s: float = 0.0
     states: int = 0
+    clauses: int = 0
 
 
 _RE_REJECT = re.compile(r'^"REJECT\|(-?\d+)\|([^"]*)"\s*$', re.M)
-_RE_SUMMARY = re.compile(r'^"SUMMARY\|(\d+)\|(\d+)\|(\d+)\|(\d+)"\s*$', re.M)
+_RE_SUMMARY = re.compile(r'^"SUMMARY\|(\d+)\|(\d+)\|(\d+)\|(\d+)\|(\d+)"\s*$', re.M)
 
 
 def _validate_one(module: str, cfg: str, trace_file: str, timeout: int, env: dict | None):
@@ -151,7 +152,7 @@ def _validate_one(module: str, cfg: str, trace_file: str, timeout: int, env: dic
         j = out.find("Error: The error occurred when TLC was evaluating")
         raise MachineryError(f"trace validation by {module} failed{where} rc={p.returncode}:\n" + head
                              + ("\n...\n" + out[j:j + 2500] if j >= 0 else ""))
-    acc, rej, n, diam = (int(x) for x in ms.groups())
+    acc, rej, n, diam, ncl = (int(x) for x in ms.groups())
     if diam != n + 1 or acc + rej != n:
         raise MachineryError(f"trace validation by {module}: not all lines consumed ({acc}+{rej} of {n}, diameter {diam})")
     rejects = []
@@ -160,7 +161,7 @@ def _validate_one(module: str, cfg: str, trace_file: str, timeout: int, env: dic
         rejects.append((int(m.group(1)), clauses))
     if len(rejects) != rej:
         raise MachineryError(f"trace validation by {module}: {rej} rejections counted, {len(rejects)} parsed\n" + out[-2000:])
-    return acc, rej, n, rejects
+    return acc, rej, n, rejects, ncl
 
 
 def validate_traces(module: str, cfg: str, trace_files: list[str], timeout: int = 1500,
@@ -172,7 +173,8 @@ def validate_traces(module: str, cfg: str, trace_files: list[str], timeout: int 
     if not files:
         return v
     with ThreadPoolExecutor(max_workers=max(1, min(parallel, len(files)))) as ex:
-        for acc, rej, n, rejects in ex.map(lambda f: _validate_one(module, cfg, f, timeout, env), files):
+        for acc, rej, n, rejects, ncl in ex.map(lambda f: _validate_one(module, cfg, f, timeout, env), files):
+            v.clauses += ncl
             v.accepted += acc
             v.rejected += rej
             v.events += n
